@@ -91,8 +91,8 @@ theorem linear_iff (monos : List Int) (md rd : Pairs) (los his : List (Option Ra
     acceptsLinear monos md rd los his ord w eps = true ↔
       ((∃ m ∈ monos, m ≠ 0) → ∀ k, k < w.length → -eps ≤ getV w k * (getM monos k : Rat)) ∧
       (∀ c ∈ md, -eps ≤ getV w c.1 - getV w c.2) ∧
-      (∀ c ∈ rd, -eps ≤ getV (scalings monos los his) c.1 * getV w c.1 -
-                        getV (scalings monos los his) c.2 * getV w c.2) ∧
+      (∀ c ∈ rd, -eps ≤ getV (scalingsAll monos los his) c.1 * getV w c.1 -
+                        getV (scalingsAll monos los his) c.2 * getV w c.2) ∧
       normOk ord w eps = true := by
   have hz : ∀ k, k < w.length →
       getV (List.zipWith (fun x (m : Int) => x * (m : Rat)) w monos) k = getV w k * (getM monos k : Rat) := by
@@ -113,8 +113,8 @@ theorem linear_iff (monos : List Int) (md rd : Pairs) (los his : List (Option Ra
   have h2 : linMdom md w eps = true ↔ ∀ c ∈ md, -eps ≤ getV w c.1 - getV w c.2 := by
     simp [linMdom, List.all_eq_true]
   have h3 : linRdom monos rd los his w eps = true ↔
-      ∀ c ∈ rd, -eps ≤ getV (scalings monos los his) c.1 * getV w c.1 -
-                        getV (scalings monos los his) c.2 * getV w c.2 := by
+      ∀ c ∈ rd, -eps ≤ getV (scalingsAll monos los his) c.1 * getV w c.1 -
+                        getV (scalingsAll monos los his) c.2 * getV w c.2 := by
     simp [linRdom, List.all_eq_true]
   simp only [acceptsLinear, Bool.and_eq_true, h1, h2, h3, and_assoc]
 
